@@ -21,7 +21,9 @@ pub enum Field { U32(u32), Disc(u8), Id(Uuid) }
 //@item core/src/message/error.rs enum MessageSerializeError
 //@item core/src/message/error.rs enum MessageDeserializeError
 
-// a frame: its kind byte, the fields behind the header (and behind the value, if any), and the value
+// a frame: well-formedness of the header (length prefix equals the buffer length, at least 5 bytes), its kind byte, the
+// fields behind the header (and behind the value, if any), and the value
+pub uninterp spec fn frame_wf(b: BytesMut) -> bool;
 pub uninterp spec fn frame_kind(b: BytesMut) -> MessageKind;
 pub uninterp spec fn frame_fields(b: BytesMut) -> Seq<Field>;
 pub uninterp spec fn frame_has_value(b: BytesMut) -> bool;
@@ -91,7 +93,7 @@ impl MessageSerializer {
 
     #[verifier::external_body]
     pub fn finish(self) -> (r: Result<BytesMut, MessageSerializeError>)
-        ensures r is Ok, frame_kind(r->Ok_0) == self.kind(), frame_fields(r->Ok_0) == self.fields(),
+        ensures r is Ok, frame_wf(r->Ok_0), frame_kind(r->Ok_0) == self.kind(), frame_fields(r->Ok_0) == self.fields(),
             frame_has_value(r->Ok_0) == self.has_value(), frame_value(r->Ok_0) == self.value()
     { unimplemented!() }
 }
@@ -103,7 +105,7 @@ impl MessageWithoutValueDeserializer {
 
     #[verifier::external_body]
     pub fn new(buf: BytesMut, kind: MessageKind) -> (r: Result<Self, MessageDeserializeError>)
-        ensures (r is Ok) == (frame_kind(buf) == kind), r is Ok ==> r->Ok_0.rest() == frame_fields(buf)
+        ensures (r is Ok) == (frame_wf(buf) && frame_kind(buf) == kind), r is Ok ==> r->Ok_0.rest() == frame_fields(buf)
     { unimplemented!() }
 
     #[verifier::external_body]
@@ -137,7 +139,7 @@ impl MessageWithValueDeserializer {
 
     #[verifier::external_body]
     pub fn new(buf: BytesMut, kind: MessageKind) -> (r: Result<Self, MessageDeserializeError>)
-        ensures (r is Ok) == (frame_kind(buf) == kind && frame_has_value(buf)),
+        ensures (r is Ok) == (frame_wf(buf) && frame_kind(buf) == kind && frame_has_value(buf)),
             r is Ok ==> r->Ok_0.rest() == frame_fields(buf) && r->Ok_0.value() == frame_value(buf)
     { unimplemented!() }
 
